@@ -272,7 +272,7 @@ def history(ctx, rng, lib_sets):
                 new = rng.choice([i for i, n in REF_COLL.items() if n in usable_client])
                 u2, d2 = sample(rng, c.client), sample(rng, c.client)
                 payload = (bytes([cl.COM_CHANGE_USER]) + u2.encode(REF[c.client]) + b"\0" + b"\0" + d2.encode(REF[c.client]) + b"\0" +
-                           struct.pack("<H", new) + b"mysql_native_password\0")
+                           struct.pack("<H", new) + b"mysql_native_password\0" + b"\x00")   # (an empty connect-attribute block: the capability is on)
                 rep = c.decode_reply(c.command(payload))
                 steps.append(f"KChangeUser (Some {new})")
                 if rep[0] == "ok":
@@ -281,7 +281,8 @@ def history(ctx, rng, lib_sets):
                         return dict(problem="COM_CHANGE_USER strings garbled", charset=c.client, sent=(u2, d2),
                                     got=(sess.variables.get("external_user"), sess.database)), steps, views
                 else:
-                    return None, steps, views   # refused: the connection is gone (C01)
+                    return dict(problem="a well-formed COM_CHANGE_USER was refused (the provider accepts every user): its strings were not decoded "
+                                        "with the character set in force", charset=c.client, new_collation=new, sent=(u2, d2), reply=repr(rep)[:160]), steps, views
             elif r < 0.5:
                 d = sample(rng, c.client)
                 rep = c.decode_reply(c.command(bytes([cl.COM_INIT_DB]) + c.enc(d)))
